@@ -28,6 +28,11 @@ ASSUMPTIONS = [
     'relationship numbers (R<n>) ; phrases contain no quote',
     'carriage returns inside strings are compared on the string routes only (text-mode file reading normalises them)',
     'ids are below 2^128',
+    'link family: besides the shared association shapes, key types, composite keys and all cardinalities: four schemas in which '
+    'two associations end at one class through different identifiers of it (same / different referential attribute names in '
+    'the referring classes, keys of different types or of one type with values crossed over the instances, one referring '
+    'class with two referentials, overlapping composite / single identifiers), 1-2 instances per class, every resolving '
+    'population',
     'history family: an attribute added to a class that has instances is assigned on every existing instance (None = unset '
     'included) before the metamodel is saved again -- an instance without any value for a declared attribute is outside '
     'the domain (serialisation raises AttributeError); only attributes that are neither identifying nor referential are '
@@ -374,6 +379,33 @@ def key_schemas():
                                [A(1, 'B', ['Y', 'X'], True, True, '', 'A', ['P', 'Q'], False, True, '')], []))
     out.append(relmodel.Schema('phrased_non_reflexive', [('A', [('Id', 'unique_id')]), ('B', [('Id', 'unique_id'), ('A_Id', 'unique_id')])],
                                [A(7, 'B', ['A_Id'], True, True, 'is held by', 'A', ['Id'], False, False, 'holds')], [('A', 'I1', ['Id'])]))
+    # several associations ending at ONE class through DIFFERENT identifiers of it; the referring classes use the same
+    # referential attribute name / different names; keys of different types / of one type with crossed values
+    # (P0.Alt == P1.Id: a link resolved through the wrong identifier reaches the wrong instance)
+    out.append(relmodel.Schema('two_ids_same_ref_name',
+                               [('P', [('Id', 'unique_id'), ('Serial', 'integer'), ('N', 'integer')]),
+                                ('T', [('Id', 'unique_id'), ('Ref', 'unique_id')]), ('L', [('Id', 'unique_id'), ('Ref', 'integer')])],
+                               [A(1, 'T', ['Ref'], True, True, '', 'P', ['Id'], False, True, ''),
+                                A(2, 'L', ['Ref'], True, True, '', 'P', ['Serial'], False, True, '')],
+                               [('P', 'I1', ['Id']), ('P', 'I2', ['Serial']), ('T', 'I1', ['Id']), ('L', 'I1', ['Id'])]))
+    out.append(relmodel.Schema('two_ids_one_type_same_ref_name',
+                               [('P', [('Id', 'unique_id'), ('Alt', 'unique_id')]),
+                                ('T', [('Id', 'unique_id'), ('Ref', 'unique_id')]), ('L', [('Id', 'unique_id'), ('Ref', 'unique_id')])],
+                               [A(2, 'L', ['Ref'], True, True, '', 'P', ['Alt'], False, True, ''),
+                                A(1, 'T', ['Ref'], True, True, '', 'P', ['Id'], False, True, '')],
+                               [('P', 'I1', ['Id']), ('P', 'I2', ['Alt'])]))
+    out.append(relmodel.Schema('two_ids_one_referring_class',
+                               [('P', [('Id', 'unique_id'), ('Serial', 'integer')]),
+                                ('T', [('Id', 'unique_id'), ('P_Id', 'unique_id'), ('P_Serial', 'integer')])],
+                               [A(1, 'T', ['P_Id'], True, True, '', 'P', ['Id'], False, True, ''),
+                                A(2, 'T', ['P_Serial'], True, True, '', 'P', ['Serial'], False, True, '')],
+                               [('P', 'I1', ['Id']), ('P', 'I2', ['Serial']), ('T', 'I1', ['Id'])]))
+    out.append(relmodel.Schema('two_ids_overlapping',
+                               [('P', [('K1', 'string'), ('K2', 'unique_id')]),
+                                ('T', [('Id', 'unique_id'), ('Ra', 'string'), ('Rb', 'unique_id')]), ('L', [('Id', 'unique_id'), ('Rb', 'unique_id')])],
+                               [A(1, 'T', ['Ra', 'Rb'], True, True, '', 'P', ['K1', 'K2'], False, True, ''),
+                                A(2, 'L', ['Rb'], True, True, '', 'P', ['K2'], False, True, '')],
+                               [('P', 'I1', ['K1', 'K2']), ('P', 'I2', ['K2'])]))
     # every (multiplicity, conditionality) combination of both ends
     n = 0
     for sm, sc, tm, tc in itertools.product((False, True), repeat=4):
@@ -415,7 +447,8 @@ def links_family(tier):
                                 break
                             values[an] = pool[j]
                         elif ty.lower() == 'unique_id':
-                            values[an] = 100 * (kinds.index(kind) + 1) + j
+                            # (a second identifier 'Alt' takes the values of 'Id' crossed over the instances)
+                            values[an] = 100 * (kinds.index(kind) + 1) + (j if an != 'Alt' else (j + 1) % 2)
                         elif ty.lower() == 'string':
                             values[an] = pool[j % 2] if an.startswith('K') else 'n%d' % j
                         elif ty.lower() == 'integer':
@@ -597,6 +630,7 @@ def coverage(ctx):
         bounds=dict(string_length=2 if ctx.quick else 3, string_alphabet=STR_ALPHABET, specials=len(STR_SPECIALS), ints=len(INTS),
                     reals=len(REALS), ids=len(IDS), schemas=len(key_schemas()), instances_per_class=2 if ctx.quick else 3,
                     reserved_words=len(RESERVED),
+                    schemas_with_several_identifiers_of_one_class=[s.name for s in key_schemas() if s.name.startswith('two_ids_')],
                     history=dict(save_routes=SAVE_ROUTES, pair_routes=SAVE_ROUTES if not ctx.quick else HIST_PAIR_ROUTES,
                                  bases=['V (one class, 2 rows)', 'A-B (association R1, identifiers, 4 rows, 2 links)'],
                                  edits='append x 5 types, insert at 0 / 1, delete of each plain attribute; values assigned '
